@@ -835,7 +835,11 @@ class Impl:
         if k == "grab":
             layer, dt = self.layer(int(w[2]))
             self.handles[int(w[1])] = (layer.data, dt)  # an array never changes its dtype
-            self.taint_lid(int(w[2]))
+            return "ok"  # (a reference to grid.empty.data is harmless until it is written through: see hset)
+        if k == "grabmask":
+            if new:
+                raise Reject("Impl")
+            self.handles[int(w[1])] = (self.grid.empty_mask, "bool")  # the property hands out the live array
             return "ok"
         if k == "fromdata":
             if not new:
@@ -862,6 +866,11 @@ class Impl:
                 arr[c] = self.pyval(dt, w[3])
             except IndexError:
                 raise Reject("Index") from None
+            # the user's own overwrite of the emptiness view: a write through a reference that aliases it
+            e = self.named("empty") if new else None
+            view = (e.data if e is not None else None) if new else self.grid.empty_mask
+            if view is not None and np.shares_memory(arr, view):
+                self.tainted = True
             return "ok"
         if k == "dtype":
             layer, dt = self.layer(int(w[1]))
@@ -1658,10 +1667,15 @@ class Gen:
                 self.layers.append(dict(name=name, dtype=dt, dims=tuple(dims), att=False))
             return
         if not self.handles or R.random() < 0.35:
-            i = self.lid()
+            h = R.randrange(3)
+            if self.kind != "new" and R.random() < 0.25:
+                # legacy: a reference to grid.empty_mask (the live array): reads through it follow the agents
+                self.emit(f"grabmask {h}")
+                self.handles = [x for x in self.handles if x[0] != h] + [(h, self.dims, "bool")]
+                return
+            i = 0 if (self.kind == "new" and R.random() < 0.12) else self.lid()
             if i is None:
                 return self.op_create()
-            h = R.randrange(3)
             self.emit(f"grab {h} {i}")
             if i < len(self.layers):
                 self.handles = [x for x in self.handles if x[0] != h] + [(h, self.layers[i]["dims"], self.layers[i]["dtype"])]
@@ -1822,9 +1836,18 @@ def tags(sc, obs):
     yield "ndim:" + str(len(w0[2].split("x")))
     seen = set()
     zero = set()  # ids of layers without entries
+    eref = set()  # handles that (at the time they were taken) alias the emptiness array
     for l, o in zip(sc.lines[1:], obs[1:]):
         w = l.split()
         t = ["op:" + w[0]]
+        if w[0] in ("grab", "grabmask") and o.startswith("ok"):
+            if w[0] == "grabmask" or (w0[1] == "new" and w[2] == "0"):
+                eref.add(w[1])
+                t.append("emptiness-ref:taken:" + w[0])
+            else:
+                eref.discard(w[1])
+        if w[0] in ("hget", "hdump", "hset") and w[1] in eref and o.startswith("ok"):
+            t.append("emptiness-ref:" + ("write" if w[0] == "hset" else "read"))
         if w[0] == "new" and "0" in w[2].split("x"):
             t.append("size0:new:" + ("ok" if o.startswith("ok") else "refused"))
             if o.startswith("ok id="):
